@@ -136,6 +136,9 @@ def _spine(term, ogp, bad, depth=0):
             if sus:
                 bad.append(('present-only-if', a))
         _spine(term[2], ogp, bad, depth + 1)
+    elif term[0] == 'call' and term[1] in ('Literal::string', 'Literal::usize_unsuffixed', 'Ident::new') and not any(
+            isinstance(a_, tuple) and a_ and a_[0] in ('tmpl', 'star', 'acc', 'rep') for a_ in term[2]):
+        pass        # a leaf token made from a value (a string literal of the source text, a number, an identifier): not an operation on a section
     elif term[0] in ('mcall', 'call', 'unwrap', 'cast', 'fmt', 'bin', 'callv', 'field', 'tf', 'f', 'idx'):
         # the content is not the section as it was built but the result of an operation on it (`.to_string().replace(..).parse().unwrap()`,
         # a token filter, ..): what reaches the output is then no longer what the section rules judged
@@ -181,7 +184,16 @@ def wiring(ogp):
         bad = []
         _spine(term, ogp, bad)
         texts = []
-        E.walk(term, lambda x: texts.append(E.tmpl_text(x)) if x[0] == 'tmpl' else None)
+
+        def text_of(x):
+            # the fixed parts of a template are expanded statically, so that a macro name / keyword built as an identifier from a literal
+            # (`format_ident!("include_str")`) reads like the token it prints
+            try:
+                import engine_skel as _K
+                return E.tmpl_text(x) + ' | ' + _K.static_expand(ogp, x)
+            except Exception:
+                return E.tmpl_text(x)
+        E.walk(term, lambda x: texts.append(text_of(x)) if x[0] == 'tmpl' else None)
         accs = []
         E.walk(term, lambda x: accs.append(x) if x[0] == 'acc' else None)
         for a in accs:
